@@ -386,3 +386,62 @@ def gen_aliasmut(ctx: Ctx):
                       "registers taken out of the pool for one patch are missing for every later patch that uses the same ABI object",
                       key=f"{q}::aliasmut::{v}")
     ctx.ok(ctx.repo.mod("abi"), None, f"{len(handing_out)} attribute-returning accessors, {n} call results followed", nontrivial=False, key="GEN.aliasmut::scan")
+
+
+# ----------------------------------------------------------------------------
+# `return` where `continue` was meant: a loop over a fixed list of things to treat
+# ----------------------------------------------------------------------------
+
+
+@rule("GEN.returnloop", ALL_PROPS, "a loop over a literal list of things to process does not `return` on one of them", 1, scoped=True)
+def gen_returnloop(ctx: Ctx):
+    n = 0
+    for q, fi in sorted(ctx.repo.funcs.items()):
+        if fi.node.returns is not None and src(fi.node.returns) not in ("None", "'None'"):
+            continue
+        for lp in [x for x in walk_no_nested(fi.node) if isinstance(x, ast.For)]:
+            if not (isinstance(lp.iter, (ast.Tuple, ast.List)) and len(lp.iter.elts) >= 2):
+                continue
+            n += 1
+            rets = [r for st in lp.body for r in ast.walk(st) if isinstance(r, ast.Return) and r.value is None]
+            ctx.check(not rets, fi, rets[0] if rets else lp, f"every element of `{src(lp.iter)[:50]}` is processed",
+                      f"a bare `return` inside the loop over `{src(lp.iter)[:60]}` ends the whole function when one element needs no work (empty or missing table): the remaining "
+                      "elements are never looked at - `continue` was meant", key=f"{q}::returnloop::{src(lp.iter)[:40]}")
+    ctx.ok(ctx.repo.mod("_modify.delete_symbols"), None, f"{n} loops over literal sequences examined", nontrivial=False, key="GEN.returnloop::scan")
+
+
+# ----------------------------------------------------------------------------
+# pairing by index: range(len(s) // 2) goes with s[2*i], s[2*i+1]
+# ----------------------------------------------------------------------------
+
+
+@rule("GEN.pairstride", ALL_PROPS, "a loop that handles a sequence two elements at a time indexes it with stride two", 1, scoped=True)
+def gen_pairstride(ctx: Ctx):
+    n = 0
+    for q, fi in sorted(ctx.repo.funcs.items()):
+        for lp in [x for x in walk_no_nested(fi.node) if isinstance(x, ast.For)]:
+            it = lp.iter
+            if not (isinstance(it, ast.Call) and src(it.func) == "range" and len(it.args) == 1 and isinstance(lp.target, ast.Name)):
+                continue
+            a = it.args[0]
+            if not (isinstance(a, ast.BinOp) and isinstance(a.op, ast.FloorDiv) and isinstance(a.right, ast.Constant) and a.right.value == 2
+                    and isinstance(a.left, ast.Call) and src(a.left.func) == "len" and a.left.args):
+                continue
+            n += 1
+            seq, i = src(a.left.args[0]), lp.target.id
+            subs = [s for st in lp.body for s in ast.walk(st) if isinstance(s, ast.Subscript) and src(s.value) == seq]
+            plain = [s for s in subs if src(s.slice) in (i, f"{i} + 1", f"1 + {i}")]
+            ctx.check(not plain, fi, plain[0] if plain else lp, f"`for {i} in range(len({seq}) // 2)` reads `{seq}[2 * {i}]`, `{seq}[2 * {i} + 1]`",
+                      f"`{src(plain[0]) if plain else ''}` uses the pair number as the element index: from the second pair on the pairs overlap (elements 1,2 then 2,3 ...) and the second half "
+                      "of the sequence is never visited - registers in it are neither saved nor restored", key=f"{q}::pairstride::{seq}")
+    ctx.ok(ctx.repo.mod("abi"), None, f"{n} half-length index loops examined", nontrivial=False, key="GEN.pairstride::scan")
+
+
+@rule("C18.10", ["C18"], "an operand counts as control flow when its instruction is in any of capstone's three transfer groups (jump, call, relative branch)", 3)
+def c18_10(ctx: Ctx):
+    m = ctx.repo.mod("_modify.retarget")
+    text = ast.unparse(m.tree)
+    for g in ("CS_GRP_JUMP", "CS_GRP_CALL", "CS_GRP_BRANCH_RELATIVE"):
+        ctx.check(g in text, m, None, f"retarget.py consults capstone's {g}",
+                  f"{g} is not referenced anywhere in the module that classifies operands: instructions capstone tags only with that group (x86 `loop`/`loope`/`loopne`, MIPS `bal` for "
+                  "BRANCH_RELATIVE) are treated as code references - the branch edge stays on the old referent and the wrong attribute rule is applied", key=f"retarget::{g}")
